@@ -5,7 +5,8 @@ import XPathV.Theorems.NonVacuity.Common
 
 Every hypothesis of `C01_main` / `C01_from_text` / `C01_single_step` / the walk theorems is
 discharged at once on the 8-node, 3-attribute document `d0`, *including* `HashInj`
-(`decide +kernel` runs FNV-64a over the identity keys of all 11 nodes), and the theorem is applied.
+(`decide +kernel` compares the node keys of all 11 nodes; `hashInj_d0'` in `NonVacuity/C11.lean` gets
+it from `hashInj_holds` instead), and the theorem is applied.
 -/
 namespace XPathV.Theorems.NonVacuity.C01
 open XPathV XPathV.Model XPathV.Theorems.NonVacuity XPathV.PosSem
